@@ -835,6 +835,31 @@ def lean_loop(name, r, doc):
             % (doc, name, r["init"], r["first"], r["bound"], r["dst"], r["src"]))
 
 
+def tr_stride(text, sizes):
+    """the element stride.  This is the one place where the translation is NOT done in exact integers: `strides[0]` is signed
+    and may be negative (reversed view), `sizeof(K)` is a std::size_t.  Written `strides[0] / sizeof(K)` the usual arithmetic
+    conversions make the division unsigned (-8 / 8 = 2^61 - 1; `i*stride` then overflows: fixed by 5a41cb5); the generated
+    term says so (`wrapS64 (Int.tdiv (stride0 % 2^64) w)`), and `gen_buffer_ctor` does not hold for it.  With the item size
+    converted to a signed type first (cast in any syntax) it is the signed division the theorem is about."""
+    what = "fvector.hh Buffer stride"
+    t = text
+    for pat in (r"static_cast\s*<\s*" + SIGNED + r"\s*>\s*\(\s*sizeof\s*\(\s*K\s*\)\s*\)", SIGNED + r"\s*\(\s*sizeof\s*\(\s*K\s*\)\s*\)",
+                r"\(\s*" + SIGNED + r"\s*\)\s*sizeof\s*\(\s*K\s*\)"):
+        t = re.sub(pat, " W ", t)
+    t = re.sub(r"sizeof\s*\(\s*K\s*\)", " UW ", t)
+    if re.search(r"\b(?:std::size_t|size_t|unsigned|uint\w*)\b", t):
+        raise TranslateError("%s: conversion to an unsigned type in %r" % (what, text))
+    env = {"STRIDE0": "stride0", "W": "w", "UW": "w"}
+    e = Expr(normalise(t, [p for p in sizes if p[1] != "W"]), what, env, "Int")
+    toks = [x for x in e.t if x not in ("(", ")")]
+    if "UW" not in toks:
+        return e.parse("N")
+    if toks == ["STRIDE0", "/", "UW"]:
+        e.parse("N")
+        return "wrapS64 (Int.tdiv (stride0 % 18446744073709551616) w)"
+    raise TranslateError("%s: unsigned item size in %r: outside the grammar" % (what, text))
+
+
 def tr_fvector(src):
     out = []
     found = {}
@@ -910,8 +935,7 @@ def tr_fvector(src):
             mm = re.fullmatch(DECL + r"\s+(\w+)\s*=\s*(.*)", st[1])
             if mm and re.search(r"\bstrides\b", mm.group(2)):
                 stride_name = mm.group(1)
-                stride_expr = Expr(normalise(mm.group(2), sizes), "fvector.hh Buffer stride",
-                                   {"STRIDE0": "stride0", "W": "w"}, "Int").parse("N")
+                stride_expr = tr_stride(mm.group(2), sizes)
                 continue
         body2.append(st)
     if stride_expr is None:
@@ -1113,6 +1137,9 @@ of the tree under test -- do not edit.  Core Lean only.
 set_option linter.unusedVariables false
 namespace DV.C20.Gen
 
+/-- conversion of a 64-bit unsigned value to `ssize_t` (two's complement) -/
+def wrapS64 (x : Int) : Int := (x + 9223372036854775808) % 18446744073709551616 - 9223372036854775808
+
 /-- a zero-initialised vector of `size` entries is filled by `dst[dst i] = src[src i]` for `first size len ≤ i < bound size len` -/
 structure CopyLoop where
   init : Int
@@ -1219,7 +1246,7 @@ POS = [
     ("max-free spellings of min (buffer)", [("fvector.hh", "std::min<ssize_t>( size, info.shape[ 0 ] )", "(size > info.shape[ 0 ]) ? info.shape[ 0 ] : (ssize_t) size")]),
     ("min by conditional assignment, while loop, auto pointer (list)", [("fvector.hh", LISTC.replace("x.size", "x.size"),
         "auto *self = new FV( K( 0 ) );\n std::size_t n = size;\n if( x.size() < n )\n n = x.size();\n std::size_t i = 0;\n while( i < n )\n {\n (*self)[ i ] = pybind11::cast< K >( x[ i ] );\n ++i;\n }\n return self;")]),
-    ("signed divisor in the stride", [("fvector.hh", "info.strides[ 0 ] / sizeof( K )", "info.strides[ 0 ] / static_cast< ssize_t >( sizeof( K ) )")]),
+    ("signed divisor in the stride, other cast syntax", [("fvector.hh", "info.strides[ 0 ] / static_cast< ssize_t >( sizeof( K ) )", "info.strides[ 0 ] / ssize_t( sizeof( K ) )")]),
     ("copy: hoisted size, renamed, template parameter", [("fvector.hh", 'cls.def("copy", [](FV& self, pybind11::args l) {', 'cls.def( "copy", [] ( const FV &me, pybind11::args args ) {\n const std::size_t numArgs = args.size();'),
         ("fvector.hh", COPYB, "if( numArgs == 0 )\n return FV( me );\n FV result( K( 0 ) );\n const std::size_t count = std::min< std::size_t >( size, numArgs );\n"
          "for( std::size_t i = 0; i < count; ++i )\n result[ i ] = args[ i ].cast< K >();\n return result;")]),
@@ -1260,7 +1287,9 @@ NEG = [
     ("bound without min", [("fvector.hh", "std::min<std::size_t>( size, args.size() )", "args.size()")]),
     ("source shifted", [("fvector.hh", "(*self)[ i ] = args[ i ]", "(*self)[ i ] = args[ i+1 ]")]),
     ("first index one", [("fvector.hh", "for( std::size_t i = 0; i < sz; ++i )\n              (*self)[ i ] = args", "for( std::size_t i = 1; i < sz; ++i )\n              (*self)[ i ] = args")]),
-    ("stride multiplied", [("fvector.hh", "info.strides[ 0 ] / sizeof( K )", "info.strides[ 0 ] * sizeof( K )")]),
+    ("stride multiplied", [("fvector.hh", "info.strides[ 0 ] / static_cast< ssize_t >( sizeof( K ) )", "info.strides[ 0 ] * static_cast< ssize_t >( sizeof( K ) )")]),
+    ("unsigned division of the byte stride (revert of 5a41cb5)", [("fvector.hh", "info.strides[ 0 ] / static_cast< ssize_t >( sizeof( K ) )", "info.strides[ 0 ] / sizeof( K )")]),
+    ("byte stride converted to unsigned", [("fvector.hh", "info.strides[ 0 ] / static_cast< ssize_t >( sizeof( K ) )", "static_cast< std::size_t >( info.strides[ 0 ] ) / static_cast< ssize_t >( sizeof( K ) )")]),
     ("initializer-list construction", [("fvector.hh", "FV v(K(0));", "FV v{K(0)};")]),
     ("assignment to the pointer's i-th object", [("fvector.hh", "(*self)[ i ] = args[ i ]", "self[ i ] = args[ i ]")]),
     ("while loop stepping by two", [("fvector.hh", LISTC, "FV *self = new FV( K( 0 ) );\n const std::size_t sz = std::min<std::size_t>( size, x.size() );\n std::size_t i = 0;\n while( i < sz )\n {\n (*self)[ i ] = x[ i ].template cast< K >();\n i += 2;\n }\n return self;")]),
